@@ -271,6 +271,64 @@ def frozen_case(rep):
     for nm in ro:
         rep.side(f'readonly/{nm}', _raises(lambda: setattr(P, nm, 0), (ReadOnlyError,)) is True)
     rep.side('readonly/values-unchanged', all(np.all(getattr(P, nm) == ctl.MS[1].levels[0].prob.__getattribute__(nm)) for nm in ro))
+    readonly_registry_case(rep)
+
+
+def readonly_registry_case(rep):
+    """every parameter that any class of a problem's hierarchy registers as read-only rejects assignment.  The expected names are recorded independently
+    (the registration call is observed while the problem is constructed), not read from the registry the implementation keeps.  ENUMERATED: every
+    problem class of pySDC.implementations.problem_classes that can be imported and constructed with its default arguments here."""
+    import importlib
+    import inspect
+    import pkgutil
+
+    import pySDC.implementations.problem_classes as pkg
+    from pySDC.core.common import RegisterParams
+    from pySDC.core.problem import Problem
+
+    seen = {}
+    orig = RegisterParams._makeAttributeAndRegister
+
+    def recording(self, *names, localVars=None, readOnly=False):
+        orig(self, *names, localVars=localVars, readOnly=readOnly)
+        if readOnly:
+            seen.setdefault(id(self), set()).update(names)
+
+    tested, skipped, batches = 0, 0, 0
+    RegisterParams._makeAttributeAndRegister = recording
+    try:
+        for mi in pkgutil.iter_modules(pkg.__path__):
+            try:
+                mod = importlib.import_module(f'{pkg.__name__}.{mi.name}')
+            except BaseException:
+                skipped += 1
+                continue
+            for nm, cls in inspect.getmembers(mod, inspect.isclass):
+                if not (issubclass(cls, Problem) and cls.__module__ == mod.__name__):
+                    continue
+                seen.clear()
+                try:
+                    P = cls()
+                except BaseException:
+                    skipped += 1
+                    continue
+                names = sorted(seen.get(id(P), set()))
+                if not names:
+                    continue
+                tested += 1
+                for name in names:
+                    before = getattr(P, name)
+                    r = _raises(lambda: setattr(P, name, 0), (ReadOnlyError,))
+                    same = getattr(P, name) is before or np.all(getattr(P, name) == before)
+                    if r is not True or not same:
+                        rep.violation(f'{PID}/read-only-parameter-writable', f'{cls.__name__}.{name} was registered read-only but assignment ' + ('is accepted silently' if r is False else f'gives {r}') +
+                                      f' (all read-only names of the hierarchy: {names})', {'task': ['frozen'], 'class': f'{mod.__name__}.{cls.__name__}', 'parameter': name})
+                        return
+    finally:
+        RegisterParams._makeAttributeAndRegister = orig
+    rep.extra['problem_classes_with_read_only_parameters'] = tested
+    rep.extra['problem_classes_not_constructible_here'] = skipped
+    rep.side('readonly/all-registered-names-protected', tested >= 5, {'classes': tested})
 
 
 def levels_case(rep):
